@@ -1,6 +1,9 @@
 import Robust.Stream.Resume
 import Driver.Util
-/-! driver component `resume`: `conn <p0> <lastId> <lastReply> <want> <seed> ; <nb> {<id> <n> {<k> <r>*}^n}^nb` -/
+import Robust.Irc.Proofs.Clean
+/-! driver component `resume`: `conn <p0> <lastId> <lastReply> <want> <seed> ; <nb> {<id> <n> {<k> <r>*}^n}^nb`
+   and `firstline <hex>`: the model's `firstLine` of a posted text (hex of UTF-8 in, hex out; `bad-utf8` when the
+   bytes are not a string) -/
 namespace Driver.ResumeDrv
 open Robust.Stream.Resume
 
@@ -31,7 +34,18 @@ def parseNet : Nat → List String → Option Net
     pure (ms :: rest)
   | _, _ => none
 
+def firstLineOp (h : String) : String :=
+  match (if h == "-" then some [] else Driver.bytesOfHex h) with
+  | none => "bad-op"
+  | some bs =>
+    match String.fromUTF8? (ByteArray.mk bs.toArray) with
+    | none => "bad-utf8"
+    | some s => Driver.hexOrDash (Robust.Irc.firstLine s).toUTF8.toList
+
 def step (line : String) : String :=
+  match Driver.words line with
+  | ["firstline", h] => firstLineOp h
+  | _ =>
   match line.splitOn ";" with
   | [h, body] =>
     match Driver.words h, Driver.words body with
